@@ -23,6 +23,31 @@ CLAIMED = {
             "Only behaviours up to the explored schedules are covered for the implementation; the model result is exhaustive "
             "within its constants.",
             "TLA+ contract/design model checked with TLC; TLC-generated schedules replayed into the code; recorded executions validated against the spec", "5/C12"),
+    "C06": ("codec",
+            "The reference codec CipTypes.tla is model-checked on a small type/value alphabet (round trip, exact consumption "
+            "with junk, dict = positional, truncation to fixed length, injectivity: CodecModel.tla, R1).  Recorded "
+            "encode/decode calls of the real classes (every SHORT_STRING length, string/array kinds, seeded descriptor trees, "
+            "Logix templates) are judged by TraceCodec.tla: decode(encode(v)) must equal the reference's normal form of v, "
+            "stream position must equal the reference's consumed length, dict and positional bytes must agree (R3).",
+            "Trusted: TLC, the transcription of CIP Vol 1 app. C into CipTypes.tla, vf/values.py, the descriptor->class table. "
+            "Inputs are explored (exhaustive only for small domains), not proved for all 2^64 values / all type trees.",
+            "TLA+ reference codec model-checked with TLC + trace validation of recorded codec calls", "5/C06"),
+    "C07": ("codec",
+            "Same engine as C06 with the stronger clause: real encode(v) must equal the reference encoding byte for byte and "
+            "real decode must equal the reference decoding for every byte pattern (all 1-byte values/patterns, all 2-byte ones in "
+            "the thorough tier, boundary/bit/random incl. NaN, infinities, denormals, float32 ties for 4/8-byte types), every "
+            "type code probed by value through the reference's own code table, generated template layouts.",
+            "Trusted: as C06.  The format is stated positively in TLA+ (endianness, BOOL 0x00/0xFF, bit 0 first, prefix widths), "
+            "so a symmetric error in the library cannot cancel.",
+            "TLA+ reference codec (IEEE-754, two's complement, UTF-16 in TLA+) + trace validation of recorded codec calls", "5/C07"),
+    "C08": ("codec",
+            "The reference classifies every input: in / out / unspecified domain for encode; ok / empty / inner / short / "
+            "malformed for decode (TruncationClassified is model-checked on the reference).  Recorded calls with every ill-typed "
+            "value class, every truncation point of valid encodings, random bytes and the empty buffer must fail exactly as "
+            "the class demands: DataError (BufferEmptyError only at a value start), never a foreign exception, a silent value "
+            "or a call exceeding the time budget.",
+            "Trusted: as C06; non-termination is detected as 'no return within 5 s'. Zero-width element types are outside the domain.",
+            "TLA+ reference classification + trace validation of recorded failing codec calls", "5/C08"),
 }
 
 PENDING_REASON = "check not built yet in this round (construction order in DESIGN.md section 9); no claim is made"
@@ -58,6 +83,9 @@ def build():
         "engines": [
             {"name": "enum", "path": "spec/EnumMap.tla spec/EnumMapModel.tla spec/TraceEnum.tla vf/props/c19.py",
              "serves_properties": ["C19"], "kind_free_text": "TLA+ semantics + TLC trace validation of recorded lookups"},
+            {"name": "codec", "path": "spec/Bytes.tla spec/Ieee754.tla spec/Unicode.tla spec/CipTypes.tla spec/CodecModel.tla "
+             "spec/TraceCodec.tla vf/codecgen.py vf/codec_engine.py vf/codec_families.py vf/props/c06.py c07.py c08.py",
+             "serves_properties": ["C06", "C07", "C08"], "kind_free_text": "TLA+ reference codec; sharded TLC trace validation"},
             {"name": "socket", "path": "spec/SocketIO.tla spec/TraceSocket.tla vf/props/c12.py vf/fakesock.py",
              "serves_properties": ["C12"], "kind_free_text": "TLA+ model of the byte-stream loops; schedules from TLC replayed into Socket; trace validation"},
         ],
